@@ -416,7 +416,10 @@ def run_case(case):
                 dlog = np.abs(np.log(np.maximum(ap, 1e-300)) - np.log(np.maximum(aq, 1e-300)))
             dlog = np.where((ap < 1e-290) | (aq < 1e-290), 0.0, dlog)
             grad_sub = hasattr(p, "paths") and any(not hasattr(sp, "_points") for sp in p.paths)
-            v.close("swapped: equal attenuation (up to the end term of the one-sided sum)", float(np.max(dlog[1:] - bound[1:] * 1.000001)) + 1e-12, 1e-6 if grad_sub else 2e-12, **det)
+            v.close("swapped: equal attenuation (up to the end term of the one-sided sum)", float(np.max(dlog[1:] - bound[1:] * 1.000001)) + 1e-12,
+                    # through gradient sub-layers the two executions agree in path length to gtol only (see above); the exponent
+                    # -integral ds / L_att inherits exactly that relative difference
+                    (1e-6 + gtol * float(np.max(np.abs(np.log(np.maximum(ap[1:], 1e-300)))))) if grad_sub else 2e-12, **det)
     sample["first_solution"] = {"L": float(s1[0].path_length), "tof": float(s1[0].tof), "attenuation": att(s1[0]).tolist()}
     return v.result(decided=True, nontrivial=True, sample=sample)
 
